@@ -49,6 +49,39 @@ static Outcome runCase(const KV& c)
     const int npoints = (int)c.getI("npoints");
     char tup[32];
     snprintf(tup, sizeof tup, "g%dp%da%db%d", cfg.geometry, cfg.problem, cfg.alpha, cfg.beta);
+    // An earlier object of the same classes with OTHER parameters, fully evaluated first and still alive while the tested
+    // one is judged: the input functions must be functions of their own object's parameters only (no state shared between
+    // objects of a class). The history is part of the case, so a failure replays in a fresh process.
+    std::unique_ptr<GMGPolar> earlier;
+    if (c.has("w_geometry")) {
+        o.cls("with_earlier_object");
+        try {
+            SolverCfg w = SolverCfg::get(c, "w_");
+            earlier     = w.make();
+            const DomainGeometry* g             = GMGPolarVerifAccess::geometry(*earlier);
+            const DensityProfileCoefficients* a = GMGPolarVerifAccess::coefficients(*earlier);
+            const ExactSolution* e              = GMGPolarVerifAccess::exact(*earlier);
+            const SourceTerm* f                 = GMGPolarVerifAccess::source(*earlier);
+            const BoundaryConditions* b         = GMGPolarVerifAccess::boundary(*earlier);
+            volatile double sink = 0;
+            for (int k = 0; k < 3; k++) {
+                const double r = w.R0 + (w.Rmax - w.R0) * (0.2 + 0.3 * k), t = 0.7 + 1.9 * k, st = std::sin(t), ct = std::cos(t);
+                if (g)
+                    sink = sink + g->Fx(r, t, st, ct) + g->Fy(r, t, st, ct) + g->dFx_dr(r, t, st, ct) + g->dFy_dr(r, t, st, ct) + g->dFx_dt(r, t, st, ct) +
+                           g->dFy_dt(r, t, st, ct);
+                if (a)
+                    sink = sink + a->alpha(r) + a->beta(r) + a->getAlphaJump();
+                if (e)
+                    sink = sink + e->exact_solution(r, t, st, ct);
+                if (f)
+                    sink = sink + f->rhs_f(r, t, st, ct);
+                if (b)
+                    sink = sink + b->u_D(w.Rmax, t, st, ct) + b->u_D_Interior(w.R0, t, st, ct);
+            }
+        }
+        catch (const std::exception&) {
+        }
+    }
     std::unique_ptr<GMGPolar> s;
     try {
         s = cfg.make();
@@ -225,6 +258,30 @@ static KV genCase()
     s.alpha_jump = s.Rmax * runi(0.3, 0.9);
     s.R0         = s.Rmax * rpick({1e-5, 1e-3, 1e-2, 0.1});
     s.put(c);
+    if (rbool()) {
+        // same classes, other parameters (half of them differ in the shape parameters only)
+        SolverCfg w = s;
+        genGeometryParams(w);
+        if (w.geometry == 1) {
+            w.kappa_eps = runi(0.0, 0.5);
+            w.delta_e   = runi(0.0, 0.4 * (1 - w.kappa_eps));
+        }
+        else if (w.geometry == 2) {
+            w.kappa_eps = runi(0.1, 0.6);
+            w.delta_e   = runi(0.7, 1.8);
+        }
+        if (rbool()) {
+            w.Rmax       = runi(0.5, 2.0);
+            w.alpha_jump = w.Rmax * runi(0.3, 0.9);
+            w.R0         = w.Rmax * rpick({1e-5, 1e-3, 1e-2, 0.1});
+        }
+        else {
+            w.Rmax       = s.Rmax;
+            w.R0         = s.R0;
+            w.alpha_jump = s.alpha_jump;
+        }
+        w.put(c, "w_");
+    }
     c.putI("npoints", 24);
     c.putU("point_seed", rseed());
     return c;
